@@ -331,7 +331,7 @@ func c20Run(trans string) (o c20Out) {
 func runC20(r *Run) {
 	installHooks()
 	hub.reset()
-	r.st.Rule = "one peer script — two requests (success, error status), pushes, the peer's heartbeat with a body, the client's own heartbeat answered, a push burst while a handler is busy followed by an abrupt drop, service on the re-established connection, peer-initiated close with code and reason — run over TCP and over WebSocket; the packets surfaced to the client core (as it logs them) are compared with Model/WsBridge.v's TCP and WebSocket adapters, and the two application-level traces (Do results, pushes delivered, ping/pong callbacks, recovery) are diffed with each other (direct oracle); two further scripts are diffed between the transports only: a pong whose body is not a heartbeat message, and the keepalive with a gzip threshold below the heartbeat's size (what the peer sees, what OnPong gets). distinct = distinct request lines"
+	r.st.Rule = "one peer script — two requests (success, error status), pushes, the peer's heartbeat with a body, the client's own heartbeat answered, a push burst while a handler is busy followed by an abrupt drop, service on the re-established connection, peer-initiated close with code and reason — run over TCP and over WebSocket; the packets surfaced to the client core (as it logs them) are compared with Model/WsBridge.v's TCP and WebSocket adapters, and the two application-level traces (Do results, pushes delivered, ping/pong callbacks, recovery) are diffed with each other (direct oracle); two further scripts are diffed between the transports only: a pong whose body is not a heartbeat message, and the keepalive with a gzip threshold below the heartbeat's size (what the peer sees, what OnPong gets). Further scripts diffed between the transports: quiet period after a pong with a short keepalive timeout, response with the largest body, a heartbeat queued behind a busy handler when the peer goes away for good (OnPing on both or neither). distinct = distinct request lines"
 	reps := 1
 	if r.thorough() {
 		reps = 5
